@@ -134,3 +134,13 @@ write("C18", [run("sequential", HEALTH, "VerifC18Sequential", {"params": {"K": 4
       ["component names differ from the reserved key 'overall' (the handler overwrites it with the aggregate, which the statement permits)",
        "json.Encoder.Encode is one Write of the encoded map (stub); time.Ticker delivers ticks at arbitrary points (environment thread)"],
       ["more than three component names", "the HTTP server around the handler"], site_prefix="c18.")
+
+# ---- C20
+DIRR = M + "/processors/auditd/dirreader"
+write("C20", [run("sort", DIRR, "VerifC20Sort", {"params": {"N": 3, "D": 2}}, {"params": {"N": 4, "D": 3}}, reach=["c20.sort.pair"],
+                  bounds="N directory entries from {audit.log, audit.log.<1..D digits, no leading zero, optionally a directory>, foreign name}"),
+              run("tail", DIRR, "VerifC20Tail", {"params": {"K": 3, "B": 2}}, {"params": {"K": 4, "B": 3}}, reach=["c20.tail.line", "c20.tail.partial", "c20.tail.rotate", "c20.tail.truncate"],
+                  bounds="K operations from {append line, append two lines, append fragment, append newline, rotate, truncate}; fragments of B symbolic bytes; optional initial content (one line + one fragment)")],
+      ["each file-system event is processed before the next change (the property's proviso)", "in-memory file system written in the harness; sort.Slice modelled as insertion sort calling the real less closure",
+       "a truncation is visible as a size decrease (the statement's 'truncation'); stubs: sync/atomic"],
+      ["lines longer than bufio's 4096-byte buffer", "real inotify coalescing", "the watcher loop (loopWithError) around read()"], site_prefix="c20.")
